@@ -301,7 +301,7 @@ pub fn program(ch: &mut Choices, o: &WildOpts) -> (Vec<Line>, WildInfo) {
                     // an exit only once the edge behind the first one is gone. With k stages every
                     // further exit is reached by its own branch (number known there) and by falling
                     // out of the previous exit, so it is recognised one round later than that one.
-                    let k = ch.below(3);
+                    let k = if ch.chance(1, 12) { 3 + ch.below(9) } else { ch.below(3) };
                     let mut v = 103 - first;
                     let mut stage_labels = vec![];
                     for st in 0..k {
@@ -373,6 +373,12 @@ pub fn program(ch: &mut Choices, o: &WildOpts) -> (Vec<Line>, WildInfo) {
         if !b.labels.is_empty() && !o.c03_domain && ch.chance(1, 14) {
             // a directive between the label(s) and the instruction they name
             lines.push(Line::Dir(".align".into(), vec![i(2)]));
+        } else if !b.labels.is_empty() && !o.c03_domain && ch.chance(1, 20) {
+            // an inline data block between the label(s) and the code they name
+            lines.push(Line::Dir(".data".into(), vec![]));
+            lines.push(Line::Label(format!("inl{}", lines.len())));
+            lines.push(Line::Dir(".word".into(), vec![i(ch.int_in(0, 9))]));
+            lines.push(Line::Dir(".text".into(), vec![]));
         }
         lines.extend(b.body.iter().cloned());
         lines.extend(b.term.iter().cloned());
